@@ -110,3 +110,92 @@ def py(v):
     if isinstance(v, numpy.generic):
         return v.item()
     return v
+
+
+def _param_access_chains(fn, argname):
+    """constant subscript chains `arg["a"]["b"]...` in the source of fn; None if the argument is used in any
+    other way (then the whole parameter group counts as read)"""
+    import ast
+    tree = R.func_ast(fn)
+    parent = {}
+    for node in ast.walk(tree):
+        for ch in ast.iter_child_nodes(node):
+            parent[ch] = node
+    chains = set()
+    for node in ast.walk(tree):
+        if isinstance(node, ast.Name) and node.id == argname and isinstance(node.ctx, ast.Load):
+            chain, cur = [], node
+            while True:
+                p = parent.get(cur)
+                if isinstance(p, ast.Subscript) and p.value is cur and isinstance(p.slice, ast.Constant):
+                    chain.append(p.slice.value)
+                    cur = p
+                else:
+                    break
+            if not chain:
+                return None
+            chains.add(tuple(chain))
+    return sorted(chains)
+
+
+def param_variants(fn):
+    """[(label, {params-argument: value})]: one entry per distinct value of the parameters that fn reads, over
+    every change date of the parameter groups it takes.  [("", {})] for functions without *_params arguments,
+    i.e. the check is date-independent exactly when the function is."""
+    from gsv.reference import resolver as ref
+    from _gettsim.config import RESOURCE_DIR
+    pargs = [a for a in inspect.signature(fn).parameters if a.endswith("_params")]
+    if not pargs:
+        return [("", {})]
+    rs = ref.Resolver(RESOURCE_DIR / "parameters")
+    dates = set()
+    for a in pargs:
+        g = a[: -len("_params")]
+        for p in rs.params_of(g):
+            spec = rs.raw(g)[p]
+            if isinstance(spec, dict):
+                dates |= set(rs.entry_dates(spec))
+    out, seen = [], set()
+    for d in sorted(dates):
+        kw, sig = {}, []
+        for a in pargs:
+            g = a[: -len("_params")]
+            try:
+                val = PE._parse_piecewise_parameters(PE._load_parameter_group_from_yaml(d, g))
+            except Exception as e:   # noqa: BLE001
+                val = None
+                sig.append((a, f"load error {type(e).__name__}"))
+                continue
+            kw[a] = val
+            chains = _param_access_chains(fn, a)
+            if chains is None:
+                sig.append((a, repr(val)))
+            else:
+                for ch in chains:
+                    cur = val
+                    try:
+                        for k in ch:
+                            cur = cur[k]
+                    except (KeyError, TypeError, IndexError):
+                        cur = "<missing>"
+                    sig.append((a, ch, repr(cur)))
+        key = repr(sig)
+        if key in seen or len(kw) != len(pargs):
+            continue
+        seen.add(key)
+        out.append((f"{d}", kw))
+    return out
+
+
+def bound(fn, label=None):
+    """fn with its *_params arguments bound (variant `label`, default: the parameters in force latest);
+    fn itself when it takes no parameters"""
+    vs = param_variants(fn)
+    if vs == [("", {})]:
+        return fn
+    for lab, kw in vs:
+        if lab == label:
+            return functools.partial(fn, **kw)
+    if label:
+        raise KeyError(f"no parameter variant {label!r} of {getattr(fn, '__name__', fn)}")
+    return functools.partial(fn, **vs[-1][1])
